@@ -283,10 +283,11 @@ type crdtWorld struct {
 	trace   []string
 	sessSeq int
 	// knowledge used by the generator
-	sessions []string          // ids ever created
-	sessHost map[string]int    // hosting origin
-	force    int // >= 0: the node that performs the next step
-	last     string
+	sessions  []string       // ids ever created
+	sessHost  map[string]int // hosting origin
+	noCollect bool           // leave freshly queued broadcasts in the node's queue (the caller drains)
+	force     int            // >= 0: the node that performs the next step
+	last      string
 }
 
 func newCrdtWorld(rg *rand.Rand, offsets []int64) *crdtWorld {
@@ -383,7 +384,9 @@ func (w *crdtWorld) step(bulk bool) {
 	default:
 		return
 	}
-	w.collect(i)
+	if !w.noCollect {
+		w.collect(i)
+	}
 }
 
 // gossip delivers a random part of the pending broadcasts among origins.
